@@ -19,7 +19,6 @@ type extState struct {
 	w     *World
 	store *MemStore
 	cache cache.IssuanceChainCache
-	chaos *ChaosCache
 	real  *lru.IssuanceChainCache
 }
 
@@ -28,7 +27,7 @@ func (w *World) drawExternal() {
 	p := &w.prof
 	p.CacheKind = []string{"chaos", "noop", "lru", "lru-ttl"}[t.Intn(4)]
 	p.CacheSize = []int{1, 2, 8}[t.Intn(3)]
-	p.CacheTTL = []time.Duration{50 * time.Millisecond, time.Second, time.Minute}[t.Intn(3)]
+	p.CacheTTL = []time.Duration{10 * time.Second, time.Minute, 10 * time.Minute}[t.Intn(3)] // the LRU's expiry ticker fires every TTL/100 of fake time
 	if w.mode.Faults || w.mode.Prop == "C14" {
 		for _, k := range []string{"store.err", "store.lost", "store.corrupt", "cache.miss", "cache.evict", "cache.err", "cache.drop"} {
 			if t.Chance(1, 2) {
@@ -41,24 +40,27 @@ func (w *World) drawExternal() {
 func (w *World) initExternal() {
 	x := &extState{w: w, store: &MemStore{S: w.s, Rows: map[string][]byte{}}}
 	p := &w.prof
+	var inner cache.IssuanceChainCache
+	var mc *mapCache
 	var err error
 	switch p.CacheKind {
 	case "noop":
-		x.cache, err = cache.NewIssuanceChainCache(context.Background(), cache.NOOP, cache.Option{})
+		inner, err = cache.NewIssuanceChainCache(context.Background(), cache.NOOP, cache.Option{})
 	case "lru":
-		x.cache, err = cache.NewIssuanceChainCache(context.Background(), cache.LRU, cache.Option{Size: p.CacheSize})
+		inner, err = cache.NewIssuanceChainCache(context.Background(), cache.LRU, cache.Option{Size: p.CacheSize})
 	case "lru-ttl":
-		x.cache, err = cache.NewIssuanceChainCache(context.Background(), cache.LRU, cache.Option{Size: p.CacheSize, TTL: p.CacheTTL})
+		inner, err = cache.NewIssuanceChainCache(context.Background(), cache.LRU, cache.Option{Size: p.CacheSize, TTL: p.CacheTTL})
 	default:
-		x.chaos = &ChaosCache{S: w.s, Rows: map[string][]byte{}}
-		x.cache = x.chaos
+		mc = &mapCache{rows: map[string][]byte{}}
+		inner = mc
 	}
 	if err != nil {
 		panic("harness: cache: " + err.Error())
 	}
-	if r, ok := x.cache.(*lru.IssuanceChainCache); ok {
+	if r, ok := inner.(*lru.IssuanceChainCache); ok {
 		x.real = r
 	}
+	x.cache = &SimCache{S: w.s, Inner: inner, Map: mc}
 	w.x = x
 }
 
@@ -91,6 +93,9 @@ func (x *extState) options(parked []*kernel.Parked) []kernel.Option {
 		var weights []int
 		total := 0
 		for _, k := range storeFaults[p.Name] {
+			if k == "cache.evict" && x.cache.(*SimCache).Map == nil {
+				continue
+			}
 			if wt := pf[k]; wt > 0 {
 				kinds = append(kinds, k)
 				weights = append(weights, wt)
